@@ -179,3 +179,28 @@ Example ngroups_examples :
   ngroups (S "plug ([0-9]+): (ON|OFF)") = Some 2%nat /\ ngroups (S "[]()]\(x\)(y)") = Some 1%nat /\
   ngroups (S "[[:alpha:](]+(a(b))") = Some 2%nat /\ ngroups (repeat 40%N 257) = None.
 Proof. vm_compute. repeat split; reflexivity. Qed.
+
+(* ------------------------------------------------------------------------------------------------------------------
+   Bridge to the run-time theorems (Proofs/SpecBridge.v).  The rules above are about the specifications as data; the
+   device-layer and whole-daemon theorems (C04, C07, C10, C12, C20) assume `cfg_ok` of every configured device.  For
+   the shipped specifications that hypothesis is discharged here, from the same regenerated data: *)
+From PM Require Import Model.Enqueue Model.Script Model.Device Model.DevHarness Proofs.DeviceStmt Proofs.DeviceInv Proofs.SpecBridge.
+
+(* every shipped specification, attached to ANY device name, plug list, time-out and ping period, satisfies the
+   configuration hypothesis of the device invariant: a login script exists, no block is empty, and every send format is
+   one on which hsprintf is defined whatever the plug argument is (for every host-range compression oracle) *)
+Theorem C17_shipped_cfg_ok : forall compress file s name plugs timeout ping,
+  In (file, s) GenSpecs.all_specs -> cfg_ok compress (mk_device name plugs (sp_scripts s) timeout ping).
+Proof. exact shipped_cfg_ok. Qed.
+Print Assumptions C17_shipped_cfg_ok.
+(* the boolean form it rests on, for any script table *)
+Theorem C17_cfg_ok_decidable : forall compress scripts name plugs timeout ping,
+  scripts_b scripts = true -> cfg_ok compress (mk_device name plugs scripts timeout ping).
+Proof. exact scripts_b_cfg_ok. Qed.
+Print Assumptions C17_cfg_ok_decidable.
+Example C17_bridge_nonvacuous :
+  GenSpecs.all_specs <> [] /\
+  scripts_b [(PM_LOG_IN, [Send (S "login\n")]); (PM_POWER_ON, [Send (S "on %d\n")])] = false /\
+  scripts_b [(PM_POWER_ON, [Send (S "on %s\n")])] = false /\
+  scripts_b [(PM_LOG_IN, [Send (S "login\n")]); (PM_POWER_ON, [ForeachPlug []])] = false.
+Proof. split; [discriminate|]. vm_compute. repeat split; reflexivity. Qed.
